@@ -120,6 +120,44 @@ Proof.
         exists l1, (l2 ++ n :: inorder r). rewrite <- !app_assoc. auto.
 Qed.
 
+Lemma ins_under_split right nd t : forall i,
+  (i < size t)%nat -> exists l1 l2, inorder t = l1 ++ l2 /\ inorder (ins_under i right nd t) = l1 ++ nd :: l2.
+Proof.
+  induction t as [|l IHl n h r IHr]; intros i Hi; cbn [size] in Hi; [lia|]. cbn [ins_under].
+  destruct (i <? size l)%nat eqn:E1.
+  - apply Nat.ltb_lt in E1. destruct (IHl i E1) as (l1 & l2 & F1 & F2). rewrite inorder_rebal, inorder_mk, F2. cbn [inorder]. rewrite F1.
+    exists l1, (l2 ++ n :: inorder r). rewrite <- !app_assoc. auto.
+  - apply Nat.ltb_ge in E1. destruct (i =? size l)%nat eqn:E2.
+    + destruct right.
+      * destruct (ins_new_split true nd r (ins_new_multi _ _)) as (l1 & l2 & F1 & F2).
+        rewrite inorder_rebal, inorder_mk, F2. cbn [inorder]. rewrite F1.
+        exists (inorder l ++ n :: l1), l2. rewrite <- !app_assoc. auto.
+      * destruct (ins_new_split true nd l (ins_new_multi _ _)) as (l1 & l2 & F1 & F2).
+        rewrite inorder_rebal, inorder_mk, F2. cbn [inorder]. rewrite F1.
+        exists l1, (l2 ++ n :: inorder r). rewrite <- !app_assoc. auto.
+    + apply Nat.eqb_neq in E2. destruct (IHr (i - size l - 1)%nat ltac:(lia)) as (l1 & l2 & F1 & F2).
+      rewrite inorder_rebal, inorder_mk, F2. cbn [inorder]. rewrite F1.
+      exists (inorder l ++ n :: l1), l2. rewrite <- !app_assoc. auto.
+Qed.
+
+Lemma hint_ins_split pos nd t :
+  exists l1 l2, inorder t = l1 ++ l2 /\ inorder (hint_ins pos nd t) = l1 ++ nd :: l2.
+Proof.
+  assert (R : exists l1 l2, inorder t = l1 ++ l2 /\ inorder (ins true nd t) = l1 ++ nd :: l2)
+    by (apply ins_new_split; apply ins_new_multi).
+  assert (U : forall i right x, nth_error (inorder t) i = Some x ->
+                exists l1 l2, inorder t = l1 ++ l2 /\ inorder (ins_under i right nd t) = l1 ++ nd :: l2).
+  { intros i right x Hx. apply ins_under_split. rewrite size_inorder. apply nth_error_Some. congruence. }
+  unfold hint_ins. destruct (nth_error (inorder t) pos) as [ip|] eqn:Ep.
+  - destruct (n_key nd <? n_key ip).
+    + destruct pos as [|q]; [eapply U; eauto|].
+      destruct (nth_error (inorder t) q) as [prev|]; [|exact R]. destruct (n_key nd >=? n_key prev); [eapply U; eauto|exact R].
+    + destruct (nth_error (inorder t) (S pos)) as [next|]; [|eapply U; eauto].
+      destruct (n_key nd <=? n_key next); [eapply U; eauto|exact R].
+  - destruct (nth_error (inorder t) (length (inorder t) - 1)) as [prev|] eqn:El; [|exact R].
+    destruct (n_key nd >? n_key prev); [eapply U; eauto|exact R].
+Qed.
+
 Lemma ins_old_split nd t :
   ins_new false (n_key nd) t = false ->
   exists l1 x l2, inorder t = l1 ++ x :: l2 /\ inorder (ins false nd t) = l1 ++ set_val x (n_val nd) :: l2
